@@ -405,5 +405,5 @@ def draw(n, seed, families=None, accel=None, dedicated_bias=0.0, weights=None):
         if len(r) > 2:            # the family knows which configuration makes it interesting
             opts.update(r[2])
             opts = {k: v for k, v in opts.items() if v is not None}
-        out.append({"id": i, "family": label, "net": net, "opts": opts})
+        out.append({"id": i, "family": label, "net": net, "opts": opts, "hint": r[2] if len(r) > 2 else None})
     return out
